@@ -42,7 +42,7 @@ Definition schema_eq (m o : schema) : bool :=
 Definition merr_eqb (a b : merr) : bool :=
   match a, b with
   | ENameCollision, ENameCollision | EUnionCollision, EUnionCollision | ENodeCollision, ENodeCollision
-  | ERootOverlap, ERootOverlap | EOverlapNode, EOverlapNode | EOverlapPartial, EOverlapPartial => true
+  | ERootOverlap, ERootOverlap | EOverlapNode, EOverlapNode | EOverlapPartial, EOverlapPartial | ESignature, ESignature => true
   | _, _ => false end.
 
 Definition tm_eq (m : tmap) (o : list (string * bool * list (string * string))) : bool :=
